@@ -405,6 +405,8 @@ def c02e(tree, ob):
                        'another destination; with a primary CRC the valid received bundle fails its CRC after re-encoding)', lossy[0])
         else:
             ob.site(FIELDS, got[2], 'EidField.{} keeps the scheme specific part as it is'.format(meth))
+    from .common import encoders_do_not_mask
+    encoders_do_not_mask(tree, ob, [CFLD, FIELDS])
     # the numbers of an ipn SSP are taken as they are (one text part per array member): no arithmetic re-splits or merges them
     ARITH = (ast.RShift, ast.LShift, ast.BitAnd, ast.BitOr, ast.BitXor, ast.FloorDiv, ast.Mod, ast.Div, ast.Mult, ast.Pow)
     for meth in ('i2m', 'm2i'):
